@@ -433,6 +433,8 @@ class World:
         patch(trigger, "time", TM); patch(dtiming, "time", TM)
         async def nop(*a, **k): return None
         patch(pys, "watchdog_start", nop); patch(pys, "install_requirements", nop)
+        async def no_yaml_change(*a, **k): return False
+        patch(pys, "update_yaml_config", no_yaml_change)          # (reads configuration.yaml through Home Assistant's executor)
         async def no_desc(h): return {}
         import custom_components.pyscript.state as st, custom_components.pyscript.eval as ev, custom_components.pyscript.decorators.service as dsvc
         patch(st, "async_get_all_descriptions", no_desc)
